@@ -60,6 +60,7 @@ ApplyNodes(s, ms, i) == IF i > Len(ms) THEN s ELSE
 RECURSIVE ApplyFeats(_,_,_)
 ApplyFeats(s, ms, i) == IF i > Len(ms) THEN s ELSE ApplyFeats(IF ms[i][1] = "f" THEN SetFeat(s, ms[i][2], ms[i][3]) ELSE s, ms, i+1)
 ApplyPayload(s, ms) == ApplyFeats(ApplyNodes(s, ms, 1), ms, 1)
+ApplyFeatsOnly(s, ms) == ApplyFeats(s, ms, 1)          \* an output matrix that names features only
 
 ---------------------------------------------------------------------------
 (* Alphas over features (C04): `[aF] > [aG]` / `[aF] > [-aG]`.                                          *)
